@@ -29,6 +29,9 @@ def justified : List (String × String × String) := [
   ("(*conn).CloseWithCallback", "eventloop.poller", "a connection exists only after its loop was fully constructed"),
   ("(*conn).Close", "eventloop.poller", "a connection exists only after its loop was fully constructed"),
   ("(*conn).Wake", "eventloop.poller", "a connection exists only after its loop was fully constructed"),
+  ("(*eventloop).Enroll", "connWithCallback.err", "written by whoever aborts the registration before it calls cb, which closes the channel the caller receives from before it reads the field"),
+  ("(*eventloop).Register", "connWithCallback.err", "written by whoever aborts the registration before it calls cb, which closes the channel the caller receives from before it reads the field"),
+  ("Engine.Register", "connWithCallback.err", "written by whoever aborts the registration before it calls cb, which closes the channel the caller receives from before it reads the field"),
   ("(*eventloop).Enroll", "conn.ctx", "written on the freshly created connection before it is handed to the loop"),
   ("(*eventloop).Enroll", "conn.remote", "written on the freshly created connection before it is handed to the loop"),
   ("(*eventloop).Enroll", "eventloop.engine", "an EventLoop handle is obtained from a connection, i.e. after the loop was constructed"),
